@@ -473,6 +473,11 @@ impl<'a> Searcher<'a> {
                     results.sort_by(|a, b| a.0.cmp(&b.0));
                 }
 
+                // LIMIT counts the rows of the result, which are the groups here
+                if self.query.limit > 0 {
+                    results.truncate(self.query.limit as usize);
+                }
+
                 results.iter().enumerate().for_each(|(idx, (_, items))| {
                     let mut buf = WritableBuffer::new();
                     if idx > 0 {
